@@ -1,6 +1,6 @@
 \* truncation: pointer / marker / ellipsis variants, widths around the text lengths; cut = declarative cut
 CONSTANTS
-  Widths = {9, 10, 11, 12, 13, 17, 18}
+  Widths = {10, 11, 12, 13, 17}
   Heights = {4}
   Layouts = {"default"}
   Infos = {"hidden"}
@@ -16,6 +16,7 @@ CONSTANTS
   Multis = {2}
   Queries <- MCQueriesC
   MaxCount = 12
+  Tracks = {0, 1, 2}
   Acts = {"move", "toggle"}
 INIT Init
 NEXT Next
